@@ -15,7 +15,7 @@ use cosmwasm_std::entry_point;
 use cosmwasm_std::{
     coin, ensure, to_json_binary, Addr, BankMsg, Binary, Coin, CosmosMsg, Decimal, Deps, DepsMut,
     Empty, Env, Event, MessageInfo, Order, Reply, ReplyOn, Response, StdError, StdResult, SubMsg,
-    Timestamp, Uint128, WasmMsg,
+    Timestamp, WasmMsg,
 };
 use cw2::set_contract_version;
 use cw721_base::Extension;
@@ -805,7 +805,8 @@ fn _execute_mint(
         )?
     }
 
-    let seller_amount = if !is_admin {
+    let seller_amount = {
+        // the net amount is mint price (or airdrop mint price for admin mints) - network fee
         let amount = mint_price.amount - network_fee;
         let payment_address = config.extension.payment_address;
         let seller = config.extension.admin;
@@ -818,8 +819,6 @@ fn _execute_mint(
             res = res.add_message(msg);
         }
         amount
-    } else {
-        Uint128::zero()
     };
 
     Ok(res
